@@ -186,7 +186,7 @@ Lemma fit_through_centroid eigh ps pl : fit_from_points ROps eigh ps = Ok pl ->
   pref pl = centroid ROps ps /\ plane_sd ROps pl (centroid ROps ps) = 0 /\
   Rabs (vnorm ROps (pnormal pl) - 1) <= default_atol ROps.
 Proof.
-  unfold fit_from_points. intros H.
+  unfold fit_from_points. destruct (length ps <=? 1)%nat; [discriminate|]. intros H.
   destruct (Rle_dec (Rabs (vnorm ROps (fit_normal ROps (eigh (cov ROps ps))) - 1)) (default_atol ROps)) as [Hle|Hgt].
   - rewrite (proj1 (ctor_accepts_iff _ _ _) Hle) in H. injection H as <-. cbn [pref pnormal].
     split; [reflexivity|split; [|exact Hle]]. rewrite sd_is_dot. cbn [pref pnormal].
